@@ -73,6 +73,7 @@ SLICES = {
         ("/*SLICE:check*/", "src/runtime_scope.rs", "stmt", r"if rt\s*\.limits\s*\.depth_limit", "from_template"),
     ],
     "find_run": [("/*SLICE*/", "src/util/trysort.rs", "stmt", r"if start > 0 \{", "try_sort")],
+    "gen_slice_arm": [("/*SLICE*/", "src/builtin/generators.rs", "block", r"Self::Slice\(gen, start, end\)\s*=>\s*either_g\(\{", "_iter")],
     "trampoline": [
         ("/*SLICE*/", "src/runtime_scope.rs", "block", r"XFunction::UserFunction\s*\{\s*template,\s*output\s*\}\s*=>\s*\{", "eval_func_with_values"),
     ],
